@@ -476,7 +476,7 @@ def suite_concurrent(ctx: Ctx) -> SuiteResult:
              "prefix that leaves scale 4 and real time elapsed: EVERY schedule for three pairs "
              "(thorough: all 72), every schedule with <= 1 preemption for the others; (b) schedules "
              "with <= 2 (thorough 3) preemptions of 2 x 2 and 1 x 1 x 1 operations for a spread of "
-             "mixes (quick: first 300 each); (c) random programs (1-3 ops per thread) under random "
+             "mixes (quick: first 200 each); (c) random programs (1-3 ops per thread) under random "
              "schedules; each run: model run sequentially in the observed lock order + one outermost "
              "acquisition per public call + linearizability against the integral specification; "
              "non-trivial = all; distinct = by (programs, lock order)")
@@ -510,13 +510,14 @@ def suite_concurrent(ctx: Ctx) -> SuiteResult:
     mixes = [[[["set_scale", "2"], ["read", "time"]], [["pause"], ["read", "time"]]],
              [[["pause"], ["resume"]], [["read", "monotonic"], ["state_dict"]]],
              [[["state_dict"], ["set_scale", "1/2"]], [["sleep", "4"], ["read", "perf_counter"]]],
+             [[["sleep", "4"], ["is_paused"]], [["pause"], ["set_scale", "2"]]],
              [[["set_scale", "2"]], [["pause"]], [["read", "time"]]],
              [[["load_state_dict", ["100", "200", "300"]]], [["resume"]], [["state_dict"]]]]
     for threads in mixes:
         for prefix in (PREFIXES if thorough else PREFIXES[:2]):
             base = {"kind": "conc", "start": "1/2", "gaps": GAPS, "prefix": prefix,
                     "threads": threads, "preempt": "lines", "max_preemptions": 3 if thorough else 2}
-            explore_case(base, ctx.driver, res, max_runs=None if thorough else 300)
+            explore_case(base, ctx.driver, res, max_runs=None if thorough else 200)
             if stop():
                 return res
     res.sample(base)
@@ -558,6 +559,17 @@ def search_concurrent(ctx: Ctx, disagreements) -> list[Violation]:
         explore_case(base, None, tmp, max_runs=ctx.n(6000, 60000))
         if tmp.violations:
             return tmp.violations
+    # the diverging programs against every pair of rate-changing operations in another thread
+    for d in mine[:2]:
+        for victim in d.case["threads"]:
+            for w1 in WRITERS:
+                for w2 in WRITERS:
+                    base = {"kind": "conc", "start": d.case.get("start", "0"), "gaps": GAPS,
+                            "prefix": d.case.get("prefix", []), "threads": [victim, [w1, w2]],
+                            "preempt": "lines", "max_preemptions": 2}
+                    explore_case(base, None, tmp, max_runs=ctx.n(400, 4000))
+                    if tmp.violations:
+                        return tmp.violations
     rng = random.Random(ctx.seed + 2)
     for _ in range(ctx.n(4000, 40000) if mine else 0):
         vs, _, _ = run_case(random_case(rng), None)
